@@ -14,7 +14,11 @@ THEOREMS = [P + n for n in ("C25_preimage_add", "C25_pair_exact", "C25_lone_boun
            [L + n for n in ("Win_preimage_add", "Win_rot", "cd_rot", "add_ule_pair", "add_uge_pair", "balAddPair_exact")] + \
            [P + n for n in ("C25_align_sound", "C25_step_holds", "C25_add_rot", "C25_sub_rot", "C25_balance_holds", "C25_balance_rot",
                             "C25_handle_sound", "C25_balancer_sound", "C25_pair_sound", "C25_balancer_sound_pair", "C25_unsat_sound",
-                            "C25_replacement_interval", "C25_mixed_path_cuts_off_model", "C25_handle_signed_char", "C25_pair_sound_signed", "C25_balancer_sound_signed", "C25_unsat_sound_signed", "C25_unsat_sound_eqne_partial", "C25_balancer_sound_nolit", "C25_balancer_sound_pair_nolit", "C25_balancer_sound_signed_nolit", "C25_step_signed_zext", "C25_step_signed_concat", "C25_handle_sound_signed_unsigned_reading", "C25_zext_signed_not_meaning_preserving")]
+                            "C25_replacement_interval", "C25_mixed_path_cuts_off_model", "C25_handle_signed_char", "C25_pair_sound_signed", "C25_balancer_sound_signed", "C25_unsat_sound_signed", "C25_unsat_sound_eqne_partial", "C25_balancer_sound_nolit", "C25_balancer_sound_pair_nolit", "C25_balancer_sound_signed_nolit", "C25_step_signed_zext", "C25_step_signed_concat", "C25_handle_sound_signed_unsigned_reading", "C25_zext_signed_not_meaning_preserving",
+                            "C25_step_signed_sext", "C25_step_signed_and", "C25_step_signed_extract", "C25_step_signed_shl", "C25_step_holds_signed",
+                            "C25_step_holds_signed_full_proved", "C25_sext_signed_not_meaning_preserving", "C25_balance_holds_signed",
+                            "C25_balance_holds_signed_unsigned_reading", "C25_process_sound_signed_unsigned_reading",
+                            "C25_balancer_sound_signed_arms_partial")]
 TESTS = [P + "test_pair_example", P + "test_covered_example"]
 
 
@@ -159,7 +163,12 @@ def theorem_class(op, info):
         # C25_balancer_sound_signed: truism and implicit assumption balanced only across +/- or unchanged, same final expression
         if len(flags) >= 2 and all(f in ("", "m") for f in flags[:2]) and flags[0] == flags[1] and finals[0] == finals[1]:
             return "C25_balancer_sound_signed(signed ordering, both paths unchanged or only +/-, same expression)"
-        return "signed-comparison(a path goes through another arm: no composite theorem)"
+        if not any("m" in f for f in flags[:2]):
+            # per path: C25_balance_holds_signed (the loop keeps the signed-or-unsigned reading through ZeroExt/SignExt/Concat/&/Extract/<<0) and
+            # C25_balancer_sound_signed_arms_partial (a path that ends in the unsigned reading leaves a sound lone bound); the label does not
+            # start with C25_: there is no composite for the pair of paths yet, so the oracle is not tied to a proof on this class
+            return "signed-comparison(a path goes through another arm, none across +/-: loop theorem C25_balance_holds_signed per path, composite partial)"
+        return "signed-comparison(a path mixes +/- with another arm: no theorem)"
     if op in ("eq", "ne"):
         return "C25_balancer_sound(==, != on every path)"
     mods = ["m" in f for f in flags]
